@@ -17,7 +17,16 @@ def IV(x):
 
 class Model:
     def __init__(self, main, reader, job, QL, NTHR, KMAX):
-        self.QL, self.NTHR, self.KMAX = QL, NTHR, KMAX
+        self.QL, self.KMAX = QL, KMAX
+        # worker count and channel capacities are what the code says (extracted), not assumed
+        self.NTHR = reader.pool_size if reader.pool_size is not None else NTHR
+        caps = {}
+        for (s0, L, d0) in main.edges:
+            for prim in L:
+                if prim[0] == "chan":
+                    caps[prim[1]] = prim[2]
+        self.capE, self.capD = caps.get("E", QL), caps.get("D", QL)
+        self.QMAX = max(self.capE, self.capD, 1)
         self.NJ = KMAX            # job slots: one job per successfully filled set
         self.NT = QL + 3          # token ids (the code should create QL+1)
         self.auts = [("main", main, None), ("reader", reader, None)] + [("job", job, j) for j in range(self.NJ)]
@@ -55,7 +64,7 @@ class Model:
             S["jst%d" % j] = I("jst%d" % j)
         S["qE_len"] = I("qE_len")
         S["qD_len"] = I("qD_len")
-        for i in range(self.QL):
+        for i in range(self.QMAX):
             S["qE%d" % i] = I("qE%d" % i)
             S["qDk%d" % i] = I("qDk%d" % i)   # 0 none, 1 ok, 2 err
             S["qDt%d" % i] = I("qDt%d" % i)
@@ -90,7 +99,7 @@ class Model:
             c.append(S["wi%d" % i] == -1)
         for b in range(self.KMAX):
             c.append(S["cnt%d" % b] == 0)
-        for i in range(self.QL):
+        for i in range(self.QMAX):
             c += [S["qE%d" % i] == -1, S["qDk%d" % i] == 0, S["qDt%d" % i] == -1, S["qDo%d" % i] == -1]
         for (tid, r) in self.regnames:
             c.append(S["R%d:%s" % (tid, r)] == -1)
@@ -150,7 +159,7 @@ class Model:
         g = []
         u = {}
         R = lambda r: S["R%d:%s" % (tid, r)]
-        QL = self.QL
+        QL = self.QMAX
         a = lab[0]
         if a == "tau":
             pass
@@ -211,7 +220,7 @@ class Model:
                 g += [S["qE_len"] == 0, S["sE"] == 0]
         elif a == "send_E":
             if lab[1] == "ok":
-                g += [S["rE"] > 0, S["qE_len"] < QL]
+                g += [S["rE"] > 0, S["qE_len"] < self.capE]
                 for i in range(QL):
                     u["qE%d" % i] = z3.If(S["qE_len"] == i, R(lab[2]), S["qE%d" % i])
                 u["qE_len"] = S["qE_len"] + 1
@@ -233,7 +242,7 @@ class Model:
         elif a == "send_D":
             kind = lab[2]
             if lab[1] == "ok":
-                g += [S["rD"] > 0, S["qD_len"] < QL]
+                g += [S["rD"] > 0, S["qD_len"] < self.capD]
                 k = {"none": 0, "ok": 1, "err": 2}[kind]
                 tokv = R(lab[3]) if kind == "ok" else IV(-1)
                 outv = self.sel_array(S, "wi", R(lab[4]), self.NT) if kind == "ok" else IV(-1)
@@ -297,8 +306,10 @@ class Model:
             guards.append(z3.And(sel == ei, g))
             for k, v in u.items():
                 upd.setdefault(k, []).append((ei, v))
-        # stutter only when everything has terminated (or after a panic)
-        guards.append(z3.And(sel == self.E, z3.Or(self.terminated(S), S["panic"])))
+        # stutter when everything has terminated, after a panic, or in a deadlocked state (no edge
+        # enabled) - otherwise deadlocked runs could not be extended to the unrolling depth and
+        # would silently drop out of every query
+        guards.append(z3.And(sel == self.E, z3.Or(self.terminated(S), S["panic"], z3.Not(self.any_enabled(S)))))
         cons = [z3.Or(guards)]
         for k in S:
             e = S[k]
